@@ -1,8 +1,8 @@
 (* Model/LogixResults.v — result assembly of LogixDriver.read / LogixDriver.write (C03):
-     logix_driver.py : read (897-957), write (1047-1110), _read_build_* / _write_build_* as far as they
-                       can RAISE or record an error (the grouping itself is Model/LogixPlan.v),
+     logix_driver.py : read, write, _read_build_* / _write_build_* as far as they record an error for a
+                       request whose packet cannot be built (the grouping itself is Model/LogixPlan.v),
                        _send_requests (1345-1380), encode_value (the BOOL-array alignment rule)
-     packets/logix.py: ReadModifyWriteRequestPacket.__init__ / set_bit / _setup_message (mask bookkeeping)
+     packets/logix.py: ReadModifyWriteRequestPacket.__init__ / set_bit (what they reject)
      tag.py          : Tag, Tag.__bool__
    composed with Model/LogixParse.v (requests -> parsed, ids by position), Model/LogixPlan.v (parsed ->
    packets) and Model/Path.v (tag_request_path: what building a request's message can raise).
@@ -71,6 +71,17 @@ Definition pyexn_name (k : pyexn) : text :=
 Definition exc_tag (r : request) (k : pyexn) : tag :=
   mkTag r VNone None (Some (err_invalid_request ++ pyexn_name k)).
 
+Definition exn_name (e : exn) : text :=
+  match e with
+  | DataError => zs_of_string "DataError" | BufferEmpty => zs_of_string "BufferEmptyError"
+  | CommError => zs_of_string "CommError" | RequestError => zs_of_string "RequestError"
+  | ResponseError => zs_of_string "ResponseError" | Foreign k => pyexn_name k
+  end.
+(* tag_data["error"] = f"Failed to build request - {err!r}" (the prefix up to the class name), reported by
+   read()/write() as Tag(tag, None, None, error) *)
+Definition build_err_tag (r : request) (prefix : text) (e : exn) : tag :=
+  mkTag r VNone None (Some (prefix ++ exn_name e)).
+
 (* ------------------------------------------------------------------ configuration and peer *)
 Record cfg := mkCfg { c_conn : Z; c_micro800 : bool; c_use_inst : bool }.
 
@@ -120,18 +131,21 @@ Definition read_msg_len (c : cfg) (p : parsed) : res Z :=
 (* _tag_return_size: DataTypes[data_type].size / template structure_size, times elements *)
 Definition tag_return_size (p : parsed) : Z := ti_size (tag_info p) * elements p.
 
-Definition mk_rreq (c : cfg) (q : preq) : res rreq :=
+(* a request whose packet cannot be built (ReadTagRequestPacket(...) / build_message() raise: an index that
+   is not a number or not a UDINT, an element count that is not a UINT) gets
+   tag_data["error"] = "Failed to build request - ..." and is skipped like a request that failed to parse *)
+Definition mk_rreq (c : cfg) (q : preq) : rreq :=
   match q_parsed q with
-  | inr _ => Ok {| r_id := q_id q; r_err := true; r_data := 0; r_msg := 0 |}
-  | inl p => let* m := read_msg_len c p in
-             Ok {| r_id := q_id q; r_err := false; r_data := tag_return_size p; r_msg := m |}
+  | inr _ => {| r_id := q_id q; r_err := true; r_data := 0; r_msg := 0 |}
+  | inl p => match read_msg_len c p with
+             | Ok m => {| r_id := q_id q; r_err := false; r_data := tag_return_size p; r_msg := m |}
+             | Err _ => {| r_id := q_id q; r_err := true; r_data := 0; r_msg := 0 |}
+             end
   end.
 
-(* _read_build_requests: every valid request's packet is built (in request order, outside any try)
-   before grouping; the first one that raises aborts read() *)
-Definition read_build (c : cfg) (qs : list preq) : res (list packet) :=
-  let* rr := map_res (mk_rreq c) qs in
-  Ok (read_build_requests (c_conn c) (c_micro800 c) rr).
+(* _read_build_requests *)
+Definition read_build (c : cfg) (qs : list preq) : list packet :=
+  read_build_requests (c_conn c) (c_micro800 c) (map (mk_rreq c) qs).
 
 (* ------------------------------------------------------------------ _send_requests (reads) *)
 (* non-multi: Tag(request.tag, response.value, response.data_type, response.error) if response
@@ -250,20 +264,24 @@ Definition assemble_read_ok (req : request) (p : parsed) (r : tag) : tag :=
   else mkTag (ReqText (user_tag p)) VNone None (t_error r).
 
 (* one iteration of `for i, tag in enumerate(tags)` of read() *)
-Definition assemble_read (rs : results) (q : preq) : tag :=
+Definition assemble_read (c : cfg) (rs : results) (q : preq) : tag :=
   match q_parsed q with
   | inr e => mkTag (q_request q) VNone None (Some (perr_text e))
-  | inl p => match rlookup (q_id q) rs with
-             | None => exc_tag (q_request q) KeyError               (* read_results[i] *)
-             | Some r => assemble_read_ok (q_request q) p r
-             end
+  | inl p =>
+      match read_msg_len c p with
+      | Err e => build_err_tag (q_request q) err_build e            (* request_data.get("error") set while building *)
+      | Ok _ => match rlookup (q_id q) rs with
+                | None => exc_tag (q_request q) KeyError            (* read_results[i] *)
+                | Some r => assemble_read_ok (q_request q) p r
+                end
+      end
   end.
 
 Definition run_read (c : cfg) (db : tagdb) (P : peer) (reqs : list request) : res result :=
   let qs := parse_requested_tags db RwRead reqs in
-  let* plan := read_build c qs in
+  let plan := read_build c qs in
   let rs := send_requests (plc_of qs) P plan in
-  Ok (shape (map (assemble_read rs) qs)).
+  Ok (shape (map (assemble_read c rs) qs)).
 
 (* ------------------------------------------------------------------ write: building *)
 Definition or0 (o : option Z) : Z := match o with Some z => z | None => 0 end.
@@ -299,80 +317,57 @@ Section Write.
     let* _ := UINT_encode (elements p) in
     Ok (5 + len pb + (if ti_struct (tag_info p) then 4 else 2) + vlen).
 
-  (* ReadModifyWriteRequestPacket.__init__: request path, then DataTypes.get(data_type_name).size *)
+  (* ReadModifyWriteRequestPacket(...) then set_bit(bit, value, id): the request path; the mask size
+     getattr(DataTypes.get(data_type_name), "size", None) must be a non-zero size; the bit (mod 32 for
+     BOOL arrays) must lie inside the mask — otherwise RequestError *)
   Definition rmw_mask_size (ti : taginfo) : option Z := assoc_text (lower (ti_name ti)) datatypes_sizes.
-  Definition rmw_init (c : cfg) (p : parsed) : res Z :=
+  Definition rmw_build (c : cfg) (p : parsed) : res unit :=
     let* _ := tag_path c (plc_tag p) (tag_info p) in
     match rmw_mask_size (tag_info p) with
-    | Some z => Ok z
-    | None => Err (Foreign AttributeError)           (* None.size *)
+    | None => Err RequestError
+    | Some z =>
+        if z =? 0 then Err RequestError
+        else let b := if is_dword_name (tag_info p) then or0 (bit p) mod dword_bits else or0 (bit p) in
+             if (0 <=? b) && (b <? z * 8) then Ok tt else Err RequestError
     end.
 
   (* the state of one request after _write_build_*  *)
   Inductive wstate :=
     | WParseErr                       (* parsing failed: skipped *)
     | WEncErr                         (* encode_value raised: tag_data["error"] set, skipped *)
+    | WBuildErr (e : exn)             (* the packet could not be built: tag_data["error"] set, skipped *)
     | WBit                            (* merged into a read-modify-write *)
     | WVal (p' : parsed).             (* a Write Tag request; p' = parsed after encode_value *)
 
-  Definition mk_wreq (c : cfg) (qv : preq * uval) : res (wreq * wstate) :=
+  (* In both planners a request that raises while its packet is built is recorded as failed and skipped:
+       multi : try/except Exception around the RMW construction + set_bit, and around WriteTagRequestPacket(...) + build_message()
+       single: one `except Exception` around everything (encode_value included) *)
+  Definition mk_wreq (c : cfg) (qv : preq * uval) : wreq * wstate :=
     let (q, v) := qv in
-    let skip st := Ok ({| w_id := q_id q; w_err := true; w_bit := false; w_tag := []; w_enc_err := false; w_msg := 0; w_val := 0 |}, st) in
+    let skip st := ({| w_id := q_id q; w_err := true; w_bit := false; w_tag := []; w_enc_err := false; w_msg := 0; w_val := 0 |}, st) in
     match q_parsed q with
     | inr _ => skip WParseErr
     | inl p =>
         if is_bit_write p then
-          let* _ := rmw_init c p in
-          Ok ({| w_id := q_id q; w_err := false; w_bit := true; w_tag := plc_tag p; w_enc_err := false; w_msg := 0; w_val := 0 |}, WBit)
+          match rmw_build c p with
+          | Ok _ => ({| w_id := q_id q; w_err := false; w_bit := true; w_tag := plc_tag p; w_enc_err := false; w_msg := 0; w_val := 0 |}, WBit)
+          | Err e => skip (WBuildErr e)
+          end
         else
           match encode_value p v with
-          | None => Ok ({| w_id := q_id q; w_err := false; w_bit := false; w_tag := plc_tag p; w_enc_err := true; w_msg := 0; w_val := 0 |}, WEncErr)
+          | None => ({| w_id := q_id q; w_err := false; w_bit := false; w_tag := plc_tag p; w_enc_err := true; w_msg := 0; w_val := 0 |}, WEncErr)
           | Some (vlen, p') =>
-              let* m := write_msg_len c p' vlen in
-              Ok ({| w_id := q_id q; w_err := false; w_bit := false; w_tag := plc_tag p; w_enc_err := false; w_msg := m; w_val := vlen |}, WVal p')
+              match write_msg_len c p' vlen with
+              | Ok m => ({| w_id := q_id q; w_err := false; w_bit := false; w_tag := plc_tag p; w_enc_err := false; w_msg := m; w_val := vlen |}, WVal p')
+              | Err e => skip (WBuildErr e)
+              end
           end
     end.
 
-  (* _write_build_requests.  In both planners the packets are constructed in request order; an
-     exception that is not a RequestError from encode_value escapes write():
-       multi : ReadModifyWriteRequestPacket(...) / WriteTagRequestPacket(...) / build_message() are outside the try
-       single: `except RequestError` only *)
-  Definition write_build (c : cfg) (qvs : list (preq * uval)) : res (list packet * list wstate) :=
-    let* ws := map_res (mk_wreq c) qvs in
-    Ok (write_build_requests (c_conn c) (c_micro800 c) (map fst ws), map snd ws).
-
-  (* ---- the masks of a read-modify-write packet: set_bit for every merged request, in order *)
-  Definition set_bit (dword : bool) (masks : Z * Z) (bv : Z * bool) : Z * Z :=
-    let (orm, andm) := masks in
-    let b := if dword then fst bv mod dword_bits else fst bv in
-    if snd bv then (Z.lor orm (Z.shiftl 1 b), Z.lor andm (Z.shiftl 1 b))
-    else (Z.land orm (Z.lnot (Z.shiftl 1 b)), Z.land andm (Z.lnot (Z.shiftl 1 b))).
-  Definition rmw_masks (dword : bool) (bits : list (Z * bool)) : Z * Z :=
-    fold_left (set_bit dword) bits (0, 18446744073709551615).
-  (* _setup_message at send time: ULINT.encode(or_mask) / ULINT.encode(and_mask) -> DataError *)
-  Definition rmw_masks_ok (m : Z * Z) : bool := in_urange 8 (fst m) && in_urange 8 (snd m).
-
-  Definition bit_of (qvs : list (preq * uval)) (i : Z) : option (text * bool * (Z * bool)) :=
-    match List.find (fun qv => q_id (fst qv) =? i) qvs with
-    | Some (q, v) => match q_parsed q with
-                     | inl p => Some (plc_tag p, is_dword_name (tag_info p), (or0 (bit p), uv_truthy v))
-                     | inr _ => None
-                     end
-    | None => None
-    end.
-  Fixpoint filter_some {A} (l : list (option A)) : list A :=
-    match l with [] => [] | Some a :: r => a :: filter_some r | None :: r => filter_some r end.
-
-  (* send-time check of every read-modify-write packet of the plan, in plan order; the packets before
-     it have been sent, the DataError escapes _send_requests and write() *)
-  Definition rmw_packet_ok (qvs : list (preq * uval)) (pk : packet) : bool :=
-    match pk with
-    | PRmw _ ids =>
-        let infos := filter_some (map (bit_of qvs) ids) in
-        let dword := match infos with (_, d, _) :: _ => d | [] => false end in
-        rmw_masks_ok (rmw_masks dword (map snd infos))
-    | _ => true
-    end.
+  (* _write_build_requests *)
+  Definition write_build (c : cfg) (qvs : list (preq * uval)) : list packet * list wstate :=
+    let ws := map (mk_wreq c) qvs in
+    (write_build_requests (c_conn c) (c_micro800 c) (map fst ws), map snd ws).
 
   (* write(): `for r in requests: if isinstance(r, ReadModifyWriteRequestPacket):
                  result = write_results.pop(r.request_id); for req_id in r._request_ids: write_results[req_id] = result` *)
@@ -416,6 +411,7 @@ Section Write.
         match st with
         | WParseErr => exc_tag (q_request q) KeyError                       (* not reached *)
         | WEncErr => mkTag (q_request q) VNone None (Some (enc_err_text multi))
+        | WBuildErr e => build_err_tag (q_request q) (if multi then err_build else err_encoding_single) e
         | WBit => match rlookup (q_id q) rs with
                   | None => exc_tag (q_request q) KeyError
                   | Some r => mkTag (ReqText (user_tag p)) (VUser v) (Some (write_type p)) (t_error r)
@@ -431,10 +427,7 @@ Section Write.
   Definition run_write (c : cfg) (db : tagdb) (P : peer) (tvs : list (request * uval)) : res result :=
     let qs := parse_requested_tags db RwWrite (map fst tvs) in
     let qvs := combine qs (map snd tvs) in
-    let* bw := write_build c qvs in
-    let (plan, sts) := bw in
-    if forallb (rmw_packet_ok qvs) plan then
-      let* rs := fan_out plan (send_requests (plc_of qs) P plan) in
-      Ok (shape (map (assemble_write (uses_multi c (length tvs)) rs) (combine qvs sts)))
-    else Err DataError.
+    let (plan, sts) := write_build c qvs in
+    let* rs := fan_out plan (send_requests (plc_of qs) P plan) in
+    Ok (shape (map (assemble_write (uses_multi c (length tvs)) rs) (combine qvs sts))).
 End Write.
